@@ -562,6 +562,11 @@ func (e *env) runDownloads(amax int, deep bool) {
 							results = append(results, e.runDownload(sc, "scripted", fault{k, fh, seq}, batch, nil, seq))
 						}
 					}
+					// single-block batches: every block is the first of its batch
+					for _, k := range []string{"gap", "dup", "shift", "shiftback"} {
+						seq++
+						results = append(results, e.runDownload(sc, "scripted", fault{k, fh, seq}, 1, nil, seq))
+					}
 				}
 				seq++
 				results = append(results, e.runDownload(sc, "scripted", fault{"oversized", a + 1 + (a % sh.dr), seq}, 2, nil, seq))
